@@ -29,6 +29,10 @@ pub enum Op {
         /// the loop exits when the value read is >= min (1: any non-zero value)
         #[serde(default = "one")]
         min: u64,
+        /// loop body: `ann.store(1, Relaxed)` after every failed check (the waiter announces that it is waiting), which
+        /// makes "the loop spun" visible to the other threads as a plain value
+        #[serde(default)]
+        ann: Option<u8>,
     },
     CellRead { c: u8 },
     CellWrite { c: u8 },
@@ -84,7 +88,7 @@ impl Op {
             Op::Cas { loc, exp, new, succ, fail } => format!("r={}.cas({}->{},{},{})", l(loc), exp, new, succ.s(), fail.s()),
             Op::FetchAdd { loc, add, ord } => format!("r={}.fadd({},{})", l(loc), add, ord.s()),
             Op::Fence { ord } => format!("fence({})", ord.s()),
-            Op::Await { loc, ord, spin_hint, min } => format!("r=await{}({}{},{})", if *spin_hint { "_spin" } else { "" }, l(loc), if *min <= 1 { "!=0".to_string() } else { format!(">={}", min) }, ord.s()),
+            Op::Await { loc, ord, spin_hint, min, ann } => format!("r=await{}({}{},{}{})", if *spin_hint { "_spin" } else { "" }, l(loc), if *min <= 1 { "!=0".to_string() } else { format!(">={}", min) }, ord.s(), match ann { Some(w) => format!(";else {}.st(1,rlx)", l(w)), None => String::new() }),
             Op::CellRead { c } => format!("c{}.read", c),
             Op::CellWrite { c } => format!("c{}.write", c),
             Op::UnsyncLoad { loc } => format!("r={}.unsync_load", l(loc)),
@@ -376,7 +380,11 @@ unsafe impl Send for Cells {}
 pub struct Shared {
     pub locs: Vec<AtomicU64>,
     pub cells: Cells,
+    /// C18: an await that failed its check at least once returns `value | SPUN_BIT`
+    pub record_spun: bool,
 }
+
+pub const SPUN_BIT: u64 = 1 << 40;
 
 /// Per-iteration client-boundary log: (thread, pc, result) in the order the operations returned.
 pub type IterLog = Vec<(u8, u8, u64)>;
@@ -408,17 +416,26 @@ fn exec(ops: &[Op], tid: u8, base_pc: u8, sh: &Shared, log: &Mutex<IterLog>) -> 
                 fence(ord.std());
                 u64::MAX
             }
-            Op::Await { loc, ord, spin_hint, min } => loop {
+            Op::Await { loc, ord, spin_hint, min, ann } => {
+                let mut spun = 0;
+                loop {
                 let v = sh.locs[loc as usize].load(ord.std());
                 if v >= min {
-                    break ret(v, &mut r);
+                    break ret(v | spun, &mut r);
+                }
+                if sh.record_spun {
+                    spun = SPUN_BIT;
+                }
+                if let Some(w) = ann {
+                    sh.locs[w as usize].store(1, std::sync::atomic::Ordering::Relaxed);
                 }
                 if spin_hint {
                     loom::hint::spin_loop();
                 } else {
                     loom::thread::yield_now();
                 }
-            },
+                }
+            }
             Op::CellRead { c } => {
                 sh.cells.0[c as usize].with(|p| unsafe { std::ptr::read_volatile(p) });
                 u64::MAX
@@ -454,6 +471,8 @@ pub struct Cfg {
     pub keep_paths: bool,
     /// user assertion: panic at the end of an iteration that produced exactly this outcome (fault injection)
     pub panic_on_outcome: Option<Vec<u64>>,
+    /// C18: see `Shared::record_spun`
+    pub record_spun: bool,
 }
 
 pub struct RunResult {
@@ -479,7 +498,8 @@ impl RunResult {
 ///       2 = region around the final loads after all joins; 3 = region around main's own ops;
 ///       4 = skip_branch before main's ops; 5 = region around thread 1's ops;
 ///       6 = expect_explicit_explore + explore() right before the first spawn;
-///       7 = region around main's ops except the first one; 8 = stop_exploring() as the very last call of the iteration
+///       7 = region around main's ops except the first one; 8 = stop_exploring() as the very last call of the iteration;
+///       9 = skip_branch(); explore() before main's ops; 10 = skip_branch(); stop_exploring(); explore() before main's ops
 pub fn run(p: &Prog, cfg: &Cfg) -> RunResult {
     struct Acc {
         outcomes: BTreeSet<Vec<u64>>,
@@ -533,7 +553,7 @@ pub fn run(p: &Prog, cfg: &Cfg) -> RunResult {
             }
             let ctrl = cfg2.ctrl;
             let log: Arc<Mutex<IterLog>> = Arc::new(Mutex::new(Vec::new()));
-            let sh = Arc::new(Shared { locs: (0..p2.nlocs).map(|_| AtomicU64::new(0)).collect(), cells: Cells((0..2).map(|_| loom::cell::UnsafeCell::new(0u64)).collect()) });
+            let sh = Arc::new(Shared { locs: (0..p2.nlocs).map(|_| AtomicU64::new(0)).collect(), cells: Cells((0..2).map(|_| loom::cell::UnsafeCell::new(0u64)).collect()), record_spun: cfg2.record_spun });
             let mut out = exec(&p2.pre, 0, 0, &sh, &log);
             if ctrl == 1 {
                 loom::stop_exploring();
@@ -559,8 +579,15 @@ pub fn run(p: &Prog, cfg: &Cfg) -> RunResult {
             if ctrl == 3 {
                 loom::stop_exploring();
             }
-            if ctrl == 4 {
+            if ctrl == 4 || ctrl == 9 || ctrl == 10 {
                 loom::skip_branch();
+            }
+            // "exploration cannot be restarted by `explore`" after skip_branch (documented): both calls are no-ops here
+            if ctrl == 10 {
+                loom::stop_exploring();
+            }
+            if ctrl == 9 || ctrl == 10 {
+                loom::explore();
             }
             if ctrl == 7 && p2.threads[0].len() >= 2 {
                 // the first operation is taken with exploration on (an explorable decision right before the region)
